@@ -20,7 +20,7 @@ TRUSTED = [
     'Coq 8.16.1 kernel (coqc); vm_compute used for finite sweeps; no native_compute',
     'axioms: none (every theorem in Properties/ is "Closed under the global context")',
     'hand-written Gallina model coq/theories/Model tied to /repo by this differential run (generator coverage bounds it)',
-    'extraction: Coq.extraction + ExtrOcamlBasic only (bool/option/unit/list/prod/sumbool/sumor -> OCaml types, andb/orb inlined); OCaml 4.13.1 ocamlopt',
+    'extraction: Coq.extraction + ExtrOcamlBasic only (bool/option/unit/list/prod/sumbool/sumor -> OCaml types, andb/orb inlined); OCaml 4.13.1 ocamlopt; cross-checked on every run: Model/Digest.v evaluated by vm_compute inside Coq and by the extracted code on a sample of this run\'s inputs',
     'driver/main.ml token reader/printer; harness/ (Rust) constructors, printers, scripted reader/sinks; bin/*.py generators, comparison and judges',
     'library contracts modelled, not verified: tokio read_exact/write_all, std write_all, simdutf8::from_utf8, str::chars/slicing, block_on; usize = 64 bit',
 ]
@@ -139,6 +139,7 @@ def main():
         rng = random.Random(seed)
         cases, dist = chk.cases(rng, tier)
         results = run_cases(chk, cases, bins, workdir, 'main')
+        ev['coverage']['extraction_crosscheck_inputs'] = lib.extraction_crosscheck(cases, workdir)
         violations, known, mismatches, distinct = evaluate(chk, cases, results, workdir)
         evaluations = len(cases) * len(chk.profiles)
         # 4. correspondence broken but no judged failure: search
